@@ -12,6 +12,12 @@
                                                     the token sequence of `l` (so every break is between two tokens)
     wrap_nonblank   noNL l → endOk l →              … with the non-blank characters of `l`, in order (over-long tokens too)
     write_item_width                                the same bound for every '\n'-separated part of any item text
+    write_item_verbatim  all parts ≤ shortMax →     a kept text (instruction + its continuation lines) is written exactly as it is
+    write_item_tokens    partsOk (parts text) →     the lexer finds in the written item the logical lines of the text, token for
+                                                    token (long parts are wrapped, also when they continue the part before them);
+                                                    partsOk: a part longer than 80 characters does not end in '=' (open finding
+                                                    C06|file|raw-continued|mark-line>80-by-blanks, witness
+                                                    write_item_tokens_fails_on_flagged_long, WriteItemTokensStatement is false)
     fvar_lines_valid / sfac_line_valid              every line of the multi-line printers is keyword + ≥ 1 parameter
     wrap_width_fails_on_79, wrap_tokens_fails_on_long_token, sfac_line_fails_on_empty, fvar_value_alone_is_bare   witnesses
 
@@ -1204,6 +1210,330 @@ theorem write_item_width (text : List Char) : ∀ pl ∈ physLines (writeItem Cf
   obtain ⟨part, hpart, rfl⟩ := List.mem_map.mp hw
   have hn : noNL part = true := by simpa [noNL] using splitOnC_parts '\n' text part hpart
   exact wrap_width part hn pl hpl
+
+/-! ### the writer, several parts: a text that is kept with its continuation lines (an instruction the library only
+    passes through — `LAUE`, `BEDE`, `LONE`, `OMIT`, `EQIV`, `TIME` … — read from a file in which it is continued; a text with a
+    hand-made continuation set through `add_line` / `replace_line`) -/
+
+theorem joinWith_cons_cons (sep : List Char) (c : Char) (h : List Char) (t : List (List Char)) :
+    joinWith sep ((c :: h) :: t) = c :: joinWith sep (h :: t) := by
+  cases t <;> simp [joinWith]
+
+theorem joinWith_splitOnC (s : Char) : ∀ l : List Char, joinWith [s] (splitOnC s l) = l := by
+  intro l
+  induction l with
+  | nil => simp [splitOnC, joinWith]
+  | cons c cs ih =>
+    rcases hs : splitOnC s cs with _ | ⟨h, t⟩
+    · exact absurd hs (splitOnC_ne_nil s cs)
+    · rw [hs] at ih
+      by_cases hc : c = s
+      · simp only [splitOnC, hc, if_true, hs, joinWith, List.nil_append, List.singleton_append, ih]
+      · simp only [splitOnC, hc, if_false, hs]
+        rw [joinWith_cons_cons, ih]
+
+/-- **C06, kept text.** A text all of whose physical lines are short enough is written exactly as it is: the continuation
+    lines that the reader kept with the first line of a passed-through instruction reach the file, in place, unchanged. -/
+theorem write_item_verbatim (cfg : Cfg) (text : List Char) (h : ∀ p ∈ splitOnC '\n' text, p.length ≤ cfg.shortMax) :
+    writeItem cfg text = text := by
+  unfold writeItem
+  have : (splitOnC '\n' text).map (wrapLine cfg) = splitOnC '\n' text := by
+    conv => rhs; rw [← List.map_id (splitOnC '\n' text)]
+    apply List.map_congr_left
+    intro p hp
+    simp [wrapLine, h p hp]
+  rw [this, joinWith_splitOnC]
+
+/-- the physical lines written for the parts of a text -/
+def written (cfg : Cfg) (parts : List (List Char)) : List (List Char) := parts.flatMap fun p => physLines (wrapLine cfg p)
+
+theorem written_eq_nil (cfg : Cfg) (parts : List (List Char)) : written cfg parts = [] ↔ parts = [] := by
+  cases parts with
+  | nil => simp [written]
+  | cons p tl =>
+    simp only [written, List.flatMap_cons, List.append_eq_nil_iff, reduceCtorEq, iff_false, not_and]
+    intro h
+    exact absurd h (splitOnC_ne_nil _ _)
+
+theorem unwrapLines_eq_nil : ∀ pls : List (List Char), unwrapLines pls = some [] → pls = [] := by
+  intro pls
+  cases pls with
+  | nil => intro _; rfl
+  | cons pl rest =>
+    intro h
+    unfold unwrapLines at h
+    split at h
+    · split at h <;> simp at h
+    · cases hu : unwrapLines rest <;> simp [hu] at h
+
+/-- the lexer on a block of wrapped lines followed by anything: the block is one logical line -/
+theorem unwrap_physOf_append : ∀ (ps : List (List Char)) (pre : List Char) (X : List (List Char)), LastOk pre ps →
+    unwrapLines (physOf pre ps ++ X) = (unwrapLines X).map (joined pre ps :: ·) := by
+  intro ps
+  induction ps with
+  | nil => intro pre X h; simp [LastOk] at h; simp [physOf, unwrapLines, joined, h]
+  | cons p tl ih =>
+    intro pre X h
+    cases tl with
+    | nil => simp [LastOk] at h; simp [physOf, unwrapLines, joined, h]
+    | cons q ps' =>
+      have h1 := ih [' '] X h
+      obtain ⟨y, ys, hy⟩ := List.exists_cons_of_ne_nil (physOf_ne_nil [' '] (q :: ps'))
+      simp only [physOf, joined]
+      rw [hy] at h1 ⊢
+      simp only [List.cons_append, unwrapLines, flagged_eq, if_true] at h1 ⊢
+      rw [h1]
+      have hb := body_eq (pre ++ p)
+      simp only [List.append_assoc] at hb
+      cases unwrapLines X <;> simp [hb]
+
+theorem unwrapLines_unflagged (pl : List Char) (rest : List (List Char)) (hf : flagged pl = false) :
+    unwrapLines (pl :: rest) = (unwrapLines rest).map (pl :: ·) := by
+  conv => lhs; unfold unwrapLines
+  simp [hf]
+
+theorem unwrapLines_flagged_last (pl : List Char) (hf : flagged pl = true) : unwrapLines [pl] = none := by
+  conv => lhs; unfold unwrapLines
+  simp [hf]
+
+theorem unwrapLines_flagged_cons (pl q : List Char) (rest : List (List Char)) (hf : flagged pl = true) :
+    unwrapLines (pl :: q :: rest) =
+      match unwrapLines (q :: rest) with
+      | some (h :: t) => some ((body pl ++ h) :: t)
+      | _ => none := by
+  conv => lhs; unfold unwrapLines
+  simp only [hf, if_true]
+  generalize unwrapLines (q :: rest) = u
+  rcases u with _ | ⟨_ | ⟨h, t⟩⟩ <;> rfl
+
+/-- the first token of a line that does not begin with a blank, and what follows it -/
+theorem first_token_split (c : Char) (r : List Char) (hc : c ≠ ' ') :
+    ∃ t r', c :: r = t ++ r' ∧ t ≠ [] ∧ NoBlank t ∧ (r' = [] ∨ ∃ r'', r' = ' ' :: r'') := by
+  induction r generalizing c with
+  | nil => exact ⟨[c], [], by simp, by simp, by intro x hx; simp at hx; rw [hx]; exact hc, Or.inl rfl⟩
+  | cons d r ih =>
+    by_cases hd : d = ' '
+    · subst hd
+      exact ⟨[c], ' ' :: r, by simp, by simp, by intro x hx; simp at hx; rw [hx]; exact hc, Or.inr ⟨r, rfl⟩⟩
+    · obtain ⟨t, r', e, _, hnb, hr'⟩ := ih d hd
+      refine ⟨c :: t, r', by simp [e], by simp, ?_, hr'⟩
+      intro x hx
+      simp only [List.mem_cons] at hx
+      rcases hx with hx | hx
+      · rw [hx]; exact hc
+      · exact hnb x hx
+
+theorem tokens_first_token (t r' : List Char) (ht : t ≠ []) (hnb : NoBlank t) (hr' : r' = [] ∨ ∃ r'', r' = ' ' :: r'') :
+    tokens (t ++ r') = t :: tokens r' := by
+  rw [tokens_append_sepOK t r' (by rcases hr' with h | ⟨r'', h⟩; exact Or.inr (Or.inl h); exact Or.inr (Or.inr (Or.inr ⟨r'', h⟩))),
+    tokens_of_tok t ht hnb]
+  rfl
+
+/-- what is joined in front of a continuation does not care how the continuation is spaced: two texts with the same
+    tokens and the same first character give the same tokens behind any text -/
+theorem tokens_append_congr (a x y : List Char) (ht : tokens x = tokens y) (hh : x.head? = y.head?) :
+    tokens (a ++ x) = tokens (a ++ y) := by
+  cases x with
+  | nil =>
+    cases y with
+    | nil => rfl
+    | cons d s => simp at hh
+  | cons c r =>
+    cases y with
+    | nil => simp at hh
+    | cons d s =>
+      have hcd : c = d := by simpa using hh
+      subst hcd
+      by_cases hc : c = ' '
+      · subst hc
+        rw [tokens_blank_cons, tokens_blank_cons] at ht
+        rw [tokens_append_blank, tokens_append_blank, ht]
+      · obtain ⟨t, r', e, htne, hnb, hr'⟩ := first_token_split c r hc
+        obtain ⟨u, s', e', hune, hnb', hs'⟩ := first_token_split c s hc
+        rw [e, tokens_first_token t r' htne hnb hr', e', tokens_first_token u s' hune hnb' hs'] at ht
+        simp only [List.cons.injEq] at ht
+        obtain ⟨htu, hrs⟩ := ht
+        subst htu
+        have sep : ∀ z : List Char, (z = [] ∨ ∃ z', z = ' ' :: z') → SepOK (a ++ t) z := by
+          intro z hz
+          rcases hz with h | ⟨z', h⟩
+          · exact Or.inr (Or.inl h)
+          · exact Or.inr (Or.inr (Or.inr ⟨z', h⟩))
+        rw [e, e', ← List.append_assoc, ← List.append_assoc, tokens_append_sepOK _ _ (sep r' hr'),
+          tokens_append_sepOK _ _ (sep s' hs'), hrs]
+
+theorem chunks_ne_nil (c : Char) (cs : List Char) : chunks (c :: cs) ≠ [] := by
+  intro h
+  have := chunks_flatten (c :: cs)
+  rw [h] at this
+  simp at this
+
+/-- the text the lexer joins from the wrapped lines begins like the instruction -/
+theorem joined_pieces_head (cfg : Cfg) (hc : cfgOk cfg = true) (l : List Char) :
+    (joined [] (pieces cfg l)).head? = l.head? := by
+  obtain ⟨_, _, _, hlt, _, _⟩ := cfgOk_spec cfg hc
+  cases l with
+  | nil => simp [pieces, rawPieces, chunks, wrapLoop, addIndent, joined]
+  | cons c cs =>
+    have hfl := rawPieces_flatten cfg (c :: cs) hlt
+    obtain ⟨ch, chs, hch⟩ := List.exists_cons_of_ne_nil (chunks_ne_nil c cs)
+    have hne : ch ≠ [] := (chunks_hom (c :: cs) ch (by rw [hch]; simp)).1
+    have hr : rawPieces cfg (c :: cs) =
+        (lineStep cfg.width (ch :: chs)).1 ::
+          wrapLoop (cfg.width - cfg.indent.length) (c :: cs).length (cfg.width - cfg.indent.length) (lineStep cfg.width (ch :: chs)).2 := by
+      unfold rawPieces
+      rw [hch]
+      rfl
+    have h0 : (lineStep cfg.width (ch :: chs)).1 ≠ [] := lineStep_ne_nil _ _ _ hne (by omega)
+    rw [hr] at hfl
+    obtain ⟨d, ds, hd⟩ := List.exists_cons_of_ne_nil h0
+    have hl : (c :: cs).head? = some d := by
+      rw [← hfl, List.flatten_cons, hd]; rfl
+    rw [hl]
+    unfold pieces
+    rw [hr, hd]
+    rcases wrapLoop (cfg.width - cfg.indent.length) (c :: cs).length (cfg.width - cfg.indent.length)
+      (lineStep cfg.width (ch :: chs)).2 with _ | ⟨q, qs⟩ <;> simp [addIndent, joined]
+
+/-- what `write_item_tokens` needs of the '\n'-separated parts of a text: a part is short (written as it is), or it does
+    not end in a continuation mark (`endOk`) and has no over-long token (`noLongTok`) -/
+def partsOk (cfg : Cfg) (parts : List (List Char)) : Bool :=
+  parts.all fun p => decide (p.length ≤ cfg.shortMax) || (endOk p && noLongTok (cfg.width - cfg.indent.length) p)
+
+/-- same token sequences, logical line by logical line; and first logical lines that behave alike when they are joined
+    to a line before them (same first character) -/
+def TokRel : Option (List (List Char)) → Option (List (List Char)) → Prop
+  | none, none => True
+  | some a, some b => a.map tokens = b.map tokens ∧ a.head?.bind List.head? = b.head?.bind List.head?
+  | _, _ => False
+
+theorem unwrap_written (cfg : Cfg) (hc : cfgOk cfg = true) : ∀ (parts : List (List Char)),
+    (∀ p ∈ parts, '\n' ∉ p) → partsOk cfg parts = true →
+      TokRel (unwrapLines (written cfg parts)) (unwrapLines parts) := by
+  obtain ⟨_, _, hib, hlt, _, _⟩ := cfgOk_spec cfg hc
+  intro parts
+  induction parts with
+  | nil => intro _ _; simp [written, unwrapLines, TokRel]
+  | cons p tl ih =>
+    intro hnl hch
+    have hnlp : noNL p = true := by simpa [noNL] using hnl p (by simp)
+    simp only [partsOk, List.all_cons, Bool.and_eq_true, Bool.or_eq_true, decide_eq_true_eq] at hch
+    obtain ⟨hp, htl⟩ := hch
+    have ih' := ih (fun q hq => hnl q (by simp [hq])) (by simpa [partsOk] using htl)
+    have hw : written cfg (p :: tl) = physLines (wrapLine cfg p) ++ written cfg tl := by simp [written]
+    rw [hw, wrapLine_phys cfg p hc hnlp]
+    by_cases hs : p.length ≤ cfg.shortMax
+    · -- a short part is written as it is
+      simp only [hs, if_true, List.singleton_append]
+      by_cases hf : flagged p = true
+      · have hnil := written_eq_nil cfg tl
+        rcases hX : written cfg tl with _ | ⟨x, xs⟩
+        · have htl0 : tl = [] := hnil.mp hX
+          subst htl0
+          rw [unwrapLines_flagged_last p hf]
+          simp [TokRel]
+        · have htlne : tl ≠ [] := fun e => by rw [hnil.mpr e] at hX; simp at hX
+          obtain ⟨t0, ts, ht⟩ := List.exists_cons_of_ne_nil htlne
+          rw [hX, ht] at ih'
+          rw [ht, unwrapLines_flagged_cons p x xs hf, unwrapLines_flagged_cons p t0 ts hf]
+          rcases hu : unwrapLines (x :: xs) with _ | a <;> rcases hv : unwrapLines (t0 :: ts) with _ | b <;>
+            rw [hu, hv] at ih' <;> simp only [TokRel] at ih'
+          · simp [TokRel]
+          · rcases a with _ | ⟨h, t⟩ <;> rcases b with _ | ⟨h', t'⟩
+            · simp [TokRel]
+            · simp at ih'
+            · simp at ih'
+            · obtain ⟨hm, hh⟩ := ih'
+              simp only [List.map_cons, List.cons.injEq] at hm
+              simp only [List.head?_cons, Option.bind_some] at hh
+              have ht1 := tokens_append_congr (body p) h h' hm.1 hh
+              refine ⟨by simp [ht1, hm.2], ?_⟩
+              simp only [List.head?_cons, Option.bind_some, List.head?_append]
+              rw [hh]
+      · have hf' : flagged p = false := by simpa using hf
+        rw [unwrapLines_unflagged p _ hf', unwrapLines_unflagged p _ hf']
+        rcases hu : unwrapLines (written cfg tl) with _ | a <;> rcases hv : unwrapLines tl with _ | b <;>
+          rw [hu, hv] at ih' <;> simp only [TokRel] at ih'
+        · simp [TokRel]
+        · simp [TokRel, ih'.1]
+    · -- a long part: its block of wrapped lines is one logical line with the same tokens and the same first character
+      simp only [hs, if_false]
+      rcases hp with hp | hp
+      · exact absurd hp hs
+      · obtain ⟨he, hl⟩ := hp
+        have hf' : flagged p = false := by simpa [endOk] using he
+        have hlast : LastOk [] (pieces cfg p) := by
+          apply lastOk_of _ _ (by intro x hx; simp at hx)
+          rw [lastNB_nonblank]
+          unfold pieces
+          rw [addIndent_nonblank cfg.indent hib, rawPieces_flatten cfg p hlt, ← lastNB_nonblank]
+          exact endOk_spec p he
+        rw [unwrap_physOf_append _ _ _ hlast]
+        have htok : tokens (joined [] (pieces cfg p)) = tokens p := by
+          rw [tokens_joined _ [] (by intro x hx; simp at hx)]
+          unfold pieces
+          rw [addIndent_tokens cfg.indent hib, rawPieces_tokens cfg p hlt hl]
+        rw [unwrapLines_unflagged p _ hf']
+        rcases hu : unwrapLines (written cfg tl) with _ | a <;> rcases hv : unwrapLines tl with _ | b <;>
+          rw [hu, hv] at ih' <;> simp only [TokRel] at ih'
+        · simp [TokRel]
+        · simp [TokRel, ih'.1, htok, joined_pieces_head cfg hc p]
+
+/-- the full-strength statement about the parts of a written text (FALSE for the repository as it is, see
+    `write_item_tokens_fails_on_flagged_long`; known finding `C06|file|raw-continued|mark-line>80-by-blanks`): whatever the
+    parts are, as long as no token is too long to be written at all -/
+def WriteItemTokensStatement (cfg : Cfg) : Prop :=
+  ∀ text : List Char, (∀ p ∈ splitOnC '\n' text, noLongTok (cfg.width - cfg.indent.length) p = true) →
+    (logical (writeItem cfg text)).map (·.map tokens) = (logical text).map (·.map tokens)
+
+/-- **C06, tokens, per written item.** For the text of any item of the res list — one line or several ('\n'-separated:
+    a passed-through instruction kept with its continuation lines, a multi-line printer, a text with a hand-made
+    continuation) — the continuation-joining lexer finds in what the writer puts into the file the same logical lines,
+    token for token, as in the text itself: wrapping a long part neither loses a continuation line nor runs into the
+    part behind it, also when the long part itself continues the part before it. Hypothesis `partsOk`: a part that is
+    longer than `shortMax` (80) characters does not end in '=' (excluded: the open finding, a line that carries a
+    continuation mark and is longer than 80 columns — in the real code the blanks behind the mark become a continuation line
+    of their own and cut the real one off, `write_item_tokens_fails_on_flagged_long`) and has no token longer than 75
+    (`wrap_tokens_fails_on_long_token`). -/
+theorem write_item_tokens_partial (cfg : Cfg) (hc : cfgOk cfg = true) (text : List Char)
+    (h : partsOk cfg (splitOnC '\n' text) = true) :
+    (logical (writeItem cfg text)).map (·.map tokens) = (logical text).map (·.map tokens) := by
+  have hrel := unwrap_written cfg hc (splitOnC '\n' text) (splitOnC_parts '\n' text) h
+  have e1 : logical (writeItem cfg text) = unwrapLines (written cfg (splitOnC '\n' text)) := by
+    unfold logical writeItem written
+    rw [physLines_joinWith_nl _ (by simp [splitOnC_ne_nil]), List.flatMap_map]
+  have e2 : logical text = unwrapLines (splitOnC '\n' text) := rfl
+  rw [e1, e2]
+  rcases hu : unwrapLines (written cfg (splitOnC '\n' text)) with _ | a <;>
+    rcases hv : unwrapLines (splitOnC '\n' text) with _ | b <;> rw [hu, hv] at hrel <;> simp only [TokRel] at hrel
+  all_goals first | rfl | simp [hrel.1]
+
+theorem write_item_tokens (text : List Char) (h : partsOk Cfg.extracted (splitOnC '\n' text) = true) :
+    (logical (writeItem Cfg.extracted text)).map (·.map tokens) = (logical text).map (·.map tokens) :=
+  write_item_tokens_partial _ consts_ok.1 text h
+
+/-- a `LONE` instruction kept with its continuation lines, the second of which has to be wrapped itself, followed by a
+    restraint of 99 characters, meets the hypothesis; the written text has six physical and two logical lines -/
+def sampleItem : List Char :=
+  "LONE 6 1 0.35 0.35 109.5 O1 O2 O3 =\n     O4 O5 O6 =\n  O7 O8 O9 O10 O11 O12 O13 O14 O15 O16 O17 O18 O19 O20 O21 O22 O23 O24 O25 O26 O27\n".toList ++ sampleLine
+
+example : partsOk Cfg.extracted (splitOnC '\n' sampleItem) = true ∧
+    (physLines (writeItem Cfg.extracted sampleItem)).length = 6 ∧
+    (logical (writeItem Cfg.extracted sampleItem)).map (·.length) = some 2 := by decide +kernel
+
+/-- the text of the open finding: the first line of a continued instruction carries its mark at column 12 and blanks up to
+    column 92 -/
+def flaggedLongItem : List Char := ("OMIT C1 C2 =".toList ++ List.replicate 80 ' ') ++ "\n  C3 C4".toList
+
+/-- witness of the open finding: the mark of a part that is wrapped although only blanks reach beyond column 80 lands
+    inside the joined line (as the token "="), the blanks become the continuation line and `C3 C4` is cut off -/
+theorem write_item_tokens_fails_on_flagged_long :
+    ¬ ((logical (writeItem Cfg.extracted flaggedLongItem)).map (·.map tokens) =
+        (logical flaggedLongItem).map (·.map tokens)) := by decide +kernel
+
+theorem write_item_statement_false : ¬ WriteItemTokensStatement Cfg.extracted := by
+  intro h
+  exact write_item_tokens_fails_on_flagged_long (h flaggedLongItem (by decide +kernel))
 
 /-! ### the comment-aware reading used by the harness coincides with the proven one on comment-free lines -/
 
